@@ -200,9 +200,12 @@ def refine(c, pid, stream, drv, ps):
         elif m.startswith("fail "):
             f = m.split(" ", 3)
             owner = event_property(f[2]) if len(f) > 2 else "C05"
-            at = re.search(r"model thread \d+ is at ([a-z])", m)
+            at = re.search(r"model thread \d+ is at ([a-z])(\S*)", m)
             if at and at.group(1) in "adil":
                 owner = "C09"  # the model's thread is at a gate operation the implementation skipped or moved
+            elif at and (at.group(1) in "fhm" or (at.group(1) == "e" and at.group(2) == "")
+                         or (at.group(1) == "g" and at.group(2).startswith("|"))):
+                owner = "C05"  # ... at the publication, the cycle walk, the un-publication or running.Done()
             if not g.startswith("ok "):
                 owner = "C05"  # the implementation itself did not finish (deadlock / stuck)
             if owner == pid or (not g.startswith("ok ") and pid == "C09" and "block:gate" in i.rsplit(",", 3)[-1]):
